@@ -51,6 +51,30 @@ Theorem C09_create_nested : forall parse_obj member s v s' rp rc,
 Proof. exact create_nested_ryw. Qed.
 Print Assumptions C09_create_nested.
 
+(** … for ANY typed value: Updater::create where the value's ObjectWrite::to_primitive is an arbitrary conservative program over
+    the storage (it may allocate and write what it allocated, to any depth — [C09_conservative_closed]): the reference handed out
+    is the number reserved before the conversion ran, it reads back as the converted value, every number that existed before
+    reads as before, the bytes are untouched. *)
+Theorem C09_create_with : forall parse_obj member s conv s' r,
+  conservative conv -> create_with s conv = Ok (s', r) ->
+  r = (lenN (refs s), 0) /\
+  (exists s2 p, conv (mkSt (refs s ++ [XPromised]) (changes s) (backend s) (start s) [] (cached s)) = Ok (s2, p) /\
+     (forall f g, resolve_ref parse_obj member f s' (fst r, g) = Ok p) /\
+     lenN (refs s) < lenN (refs s') /\ refs s' = refs s2) /\
+  ((forall i sid idx, i < lenN (refs s) -> nthN (refs s) i = Some (XStream sid idx) -> sid < lenN (refs s)) ->
+     forall f r0, fst r0 < lenN (refs s) -> resolve_ref parse_obj member f s' r0 = resolve_ref parse_obj member f s r0) /\
+  backend s' = backend s.
+Proof. intros parse_obj member. exact (create_with_ryw parse_obj member). Qed.
+Print Assumptions C09_create_with.
+
+Theorem C09_conservative_closed : (forall conv (k : N * N -> prim), conservative conv -> conservative (fun s => do r <- create_with s conv; Ok (fst r, k (snd r)))) /\
+  (forall v, conservative (nested_conv v)) /\ (forall v, conservative (fun s => Ok (s, v))).
+Proof.
+  split; [exact create_with_conservative|]. split; [exact nested_conv_conservative|].
+  intros v s1 s2 p H. inversion H; subst. split; [exists []; rewrite app_nil_r; reflexivity|]. repeat split.
+Qed.
+Print Assumptions C09_conservative_closed.
+
 Theorem C09_create_is_create_with : forall s v, create_with s (fun s1 => Ok (s1, v)) = Ok (create s v).
 Proof. exact create_is_create_with. Qed.
 Print Assumptions C09_create_is_create_with.
